@@ -178,6 +178,9 @@ func Fq(args []string, files map[string]string, lines []string, timeout time.Dur
 
 type T = map[string]any
 
+// Cps: code points of a string (TLC's JSON reader garbles non-ASCII text)
+func Cps(s string) []int { return cps(s) }
+
 func cps(s string) []int {
 	r := []int{}
 	for _, c := range s {
@@ -327,7 +330,8 @@ func valueOutcome(v any) Outcome {
 type GojqResult struct {
 	CompileErr string
 	Out        []Outcome
-	Side       []any // debug / stderr records, tagged values
+	Side       []any  // debug / stderr records, tagged values
+	Stderr     string // what the jq command writes to stderr for them (debug: compact JSON line; stderr: raw text)
 }
 
 type sliceIter struct {
@@ -357,6 +361,7 @@ type Compiled struct {
 	code *gojq.Code
 	side *[]any
 	ins  *sliceIter
+	errb *strings.Builder
 }
 
 func GojqCompile(prog string) (*Compiled, string) {
@@ -364,7 +369,7 @@ func GojqCompile(prog string) (*Compiled, string) {
 	if err != nil {
 		return nil, "parse: " + err.Error()
 	}
-	c := &Compiled{side: new([]any), ins: &sliceIter{}}
+	c := &Compiled{side: new([]any), ins: &sliceIter{}, errb: &strings.Builder{}}
 	tag := func(v any) any {
 		o := valueOutcome(v)
 		if o["k"] != "v" {
@@ -378,10 +383,14 @@ func GojqCompile(prog string) (*Compiled, string) {
 		// N3: provided by the jq command, documented behaviour
 		gojq.WithFunction("debug", 0, 0, func(v any, _ []any) any {
 			*c.side = append(*c.side, T{"t": "arr", "v": []any{T{"t": "str", "s": cps("DEBUG:")}, tag(v)}})
+			b, _ := gojq.Marshal([]any{"DEBUG:", v})
+			c.errb.Write(b)
+			c.errb.WriteByte('\n')
 			return v
 		}),
 		gojq.WithFunction("stderr", 0, 0, func(v any, _ []any) any {
 			*c.side = append(*c.side, T{"t": "str", "s": cps(tostring(v))})
+			c.errb.WriteString(tostring(v))
 			return v
 		}),
 		gojq.WithFunction("input_filename", 0, 0, func(any, []any) any { return nil }),
@@ -401,6 +410,7 @@ func (c *Compiled) Run(input any, inputs []any, timeout time.Duration) (res Gojq
 		}
 	}()
 	*c.side = nil
+	c.errb.Reset()
 	c.ins.vs = nil
 	c.ins.i = 0
 	for _, x := range inputs {
@@ -445,6 +455,7 @@ func (c *Compiled) Run(input any, inputs []any, timeout time.Duration) (res Gojq
 	if res.Side == nil {
 		res.Side = []any{}
 	}
+	res.Stderr = c.errb.String()
 	if res.Out == nil {
 		res.Out = []Outcome{}
 	}
